@@ -3,6 +3,7 @@ C20 — property theorems (statements only; helper lemmas live in `Proofs/C20.le
 The tables are the ones `translator/tables.py` extracts from `colors.py` on every run.
 -/
 import Mahotas.Proofs.C20
+import Mahotas.Proofs.C20Real
 namespace Mahotas.C20
 open Mahotas Mahotas.Generated
 
@@ -44,16 +45,17 @@ the repair the extracted flags were `false` and this theorem did not hold. -/
 theorem C20_model_is_standard (rgb xyz : List Float) :
     rgb2xyz rgb = rgb2xyzSpec rgb ∧ xyz2rgb xyz = xyz2rgbSpec xyz ∧ rgb2lab rgb = rgb2labSpec rgb := by
   have h1 : ∀ c, srgbToLinearWith fwdLowWhenBelow c = srgbToLinearStd c := fun c => by
-    simp [srgbToLinearWith, srgbToLinearStd, fwdLowWhenBelow, srgbScaleF, srgbAF, srgbGammaF, srgbSlopeF, srgbKneeF]
+    simp [srgbToLinearWith, srgbToLinearG, litsF, srgbToLinearStd, fwdLowWhenBelow, srgbScaleF, srgbAF, srgbGammaF,
+      srgbSlopeF, srgbKneeF]
   have h2 : ∀ v, linearToSrgbWith invLowWhenBelow v = linearToSrgbStd v := fun v => by
     simp [linearToSrgbWith, linearToSrgbStd, invLowWhenBelow, srgbAInvF, srgbSlopeInvF, srgbKneeInvF]
   have h3 : ∀ t, labFWith labSmallWhenBelow labKneeExp t = labFStd t := fun t => by
-    simp [labFWith, labFStd, labSmallWhenBelow, labKneeExp, labDeltaNumF, labDeltaDenF]
+    simp [labFWith, labFG, litsF, labFStd, labSmallWhenBelow, labKneeExp, labDeltaNumF, labDeltaDenF]
   have e1 : ∀ l, rgb2xyz l = rgb2xyzSpec l := fun l => by
-    simp only [rgb2xyz, rgb2xyzWith, rgb2xyzSpec, funext h1]; rfl
+    simp only [rgb2xyz, rgb2xyzWith, rgb2xyzG, rgb2xyzSpec, funext h1]; rfl
   have e3 : ∀ l, xyz2lab l = xyz2labSpec l := fun l => by
     rcases l with _ | ⟨x, _ | ⟨y, _ | ⟨z, _ | ⟨w, t⟩⟩⟩⟩ <;>
-      simp [xyz2lab, xyz2labWith, xyz2labSpec, labWhiteF, h3]
+      simp [xyz2lab, xyz2labWith, xyz2labG, litsF, xyz2labSpec, labWhiteF, funext h3]
   refine ⟨e1 rgb, ?_, ?_⟩
   · simp only [xyz2rgb, xyz2rgbWith, xyz2rgbSpec, funext h2]; rfl
   · simp only [rgb2lab, rgb2labSpec, e1, e3]
@@ -67,8 +69,8 @@ theorem C20_white_black :
 
 /-- **C20-T2 (linear part monotone).** Every entry of the forward matrix is positive, hence every XYZ
 output is non-decreasing in each linear channel (exact arithmetic). Together with the monotonicity of
-the transfer function (validated numerically, see the evidence) this is the statement's
-"each output is non-decreasing in each channel". -/
+the transfer function (`C20_transfer_monotone`, over the reals) this is the statement's
+"each output is non-decreasing in each channel" (`C20_rgb2xyz_monotone`). -/
 theorem C20_matrix_monotone (r g b r' g' b' : Rat) (hr : r ≤ r') (hg : g ≤ g') (hb : b ≤ b') :
     List.Forall₂ (· ≤ ·) (matVec rgb2xyzMQ [r, g, b]) (matVec rgb2xyzMQ [r', g', b']) := by
   rw [matVec_rgb2xyz, matVec_rgb2xyz]
@@ -118,8 +120,125 @@ theorem C20_stretch_spec (xs : List Rat) (lo hi : Rat) (h : lo ≤ hi) :
       (∀ x ∈ xs, lo ≤ g x ∧ g x ≤ hi) ∧ (∀ m ∈ xs, (∀ x ∈ xs, m ≤ x) → g m = lo) :=
   stretchList_spec xs lo hi h
 
+/-- **C20-T3 (the sRGB transfer function is increasing — over the reals).** `srgbR` is the model's decoding
+`srgbToLinearG` (the generic definition the driver runs at `Float` with `Float.pow`) instantiated at `ℝ`
+with `Real.rpow`, the extracted selection flag and the exact rationals of the extracted constants:
+`T(c) = x/12.92` where `x = c/255 ≤ 0.04045`, `((x+0.055)/1.055)^2.4` elsewhere. The linear segment is
+strictly increasing, the power-law segment is strictly increasing, and across the knee
+`0.04045/12.92 ≤ ((0.04045+0.055)/1.055)^2.4` (from the rational inequality `q⁵ ≤ b¹²`), so `T` is
+strictly increasing on the whole real line; in particular it is non-decreasing on the 8-bit lattice
+`k = 0..255` including `T(10) ≤ T(11)` (the knee lies between `10/255` and `11/255`), with `T(0) = 0`
+and `T(255) = 1`. -/
+theorem C20_transfer_monotone :
+    (∀ c, srgbR c = if c / 255 ≤ 809 / 20000 then c / 255 / (323 / 25)
+        else ((c / 255 + 11 / 200) / (1 + 11 / 200)) ^ ((12 : ℝ) / 5)) ∧
+    (∀ c c' : ℝ, c < c' → c' / 255 ≤ 809 / 20000 → srgbR c < srgbR c') ∧
+    (∀ c c' : ℝ, c < c' → 809 / 20000 < c / 255 → srgbR c < srgbR c') ∧
+    StrictMono srgbR ∧
+    (∀ k k' : Nat, k ≤ k' → srgbR (k : ℝ) ≤ srgbR (k' : ℝ)) ∧
+    ((10 : ℝ) / 255 ≤ 809 / 20000 ∧ (809 : ℝ) / 20000 < 11 / 255 ∧ srgbR 10 < srgbR 11) ∧
+    srgbR 0 = 0 ∧ srgbR 255 = 1 :=
+  ⟨srgbR_eq, fun _ _ h hk => srgbR_low_strict h hk, fun _ _ h hk => srgbR_high_strict h hk, srgbR_strictMono,
+   fun _ _ h => srgbR_strictMono.monotone (by exact_mod_cast h),
+   ⟨by norm_num, by norm_num, srgbR_strictMono (by norm_num)⟩, srgbR_zero, srgbR_255⟩
+
+/-- **C20 (rgb2xyz is non-decreasing in each channel — over the reals).** `rgb2xyzR` is the model's
+`rgb2xyzG` (transfer function on each channel, then the extracted matrix) at `ℝ`. Every XYZ output is
+non-decreasing in each channel value (all real channel values, hence all 8-bit ones), black maps to 0
+and white `(255,255,255)` to `(0.9505, 1, 1.089)` with `Y = 1` exactly. -/
+theorem C20_rgb2xyz_monotone :
+    (∀ r g b r' g' b' : ℝ, r ≤ r' → g ≤ g' → b ≤ b' →
+      List.Forall₂ (· ≤ ·) (rgb2xyzR [r, g, b]) (rgb2xyzR [r', g', b'])) ∧
+    rgb2xyzR [0, 0, 0] = [0, 0, 0] ∧
+    rgb2xyzR [255, 255, 255] = [(9505 : ℝ) / 10000, 1, (1089 : ℝ) / 1000] := by
+  refine ⟨fun _ _ _ _ _ _ hr hg hb => rgb2xyzR_mono hr hg hb, ?_, ?_⟩
+  · rw [rgb2xyzR_eq, srgbR_zero]; norm_num
+  · rw [rgb2xyzR_eq, srgbR_255]; norm_num
+
+/-- **C20 (the L*a*b* helper `f` is non-decreasing — over the reals).** `labFR` is the model's `labFG`
+(run by the driver at `Float`) at `ℝ` with the extracted `δ = 6/29`, exponent 3 and selection:
+`f(t) = t/(3δ²) + 4/29` where `t ≤ δ³`, `t^(1/3)` elsewhere. The linear branch at the knee equals `δ`,
+which is the cube root of the knee (continuity, exact), both branches increase, so `f` is non-decreasing
+on the whole real line; hence `L* = 116 f(Y/Yn) − 16` (first output of the model's `xyz2labG` at `ℝ`) is
+non-decreasing in `Y`. -/
+theorem C20_lab_f_monotone :
+    (∀ t, labFR t = if t ≤ (6 / 29 : ℝ) ^ 3 then (1 / 3 * (29 / 6) * (29 / 6)) * t + 4 / 29 else t ^ ((3 : ℝ)⁻¹)) ∧
+    (1 / 3 * (29 / 6) * (29 / 6)) * (6 / 29 : ℝ) ^ 3 + 4 / 29 = 6 / 29 ∧
+    ((6 / 29 : ℝ) ^ 3) ^ ((3 : ℝ)⁻¹) = 6 / 29 ∧
+    Monotone labFR ∧
+    (∀ x y z x' y' z' : ℝ, y ≤ y' → (xyz2labR [x, y, z]).getD 0 0 ≤ (xyz2labR [x', y', z']).getD 0 0) := by
+  refine ⟨labFR_eq, lab_knee_linear, lab_knee_root, labFR_mono, ?_⟩
+  intro x y z x' y' z' h
+  rw [xyz2labR_eq, xyz2labR_eq]
+  have := labFR_mono (show y / 1 ≤ y' / 1 by linarith)
+  simp only [List.getD_cons_zero]
+  linarith
+
+/-- **C20 (white ↦ L* = 100, a* = b* = 0).** `f(1) = 1`, hence the model's `xyz2lab` over the reals maps the
+white point it uses (`X/Xn = Y/Yn = Z/Zn = 1`) to `(100, 0, 0)`. -/
+theorem C20_lab_white :
+    labFR 1 = 1 ∧ xyz2labR (labWhiteQ.map (fun q => (q : ℝ))) = [100, 0, 0] := by
+  refine ⟨labFR_one, ?_⟩
+  have e : labWhiteQ.map (fun q => (q : ℝ)) = [(95047 : ℝ) / 100000, 1, (108883 : ℝ) / 100000] := by
+    simp [labWhiteQ]
+  rw [e, xyz2labR_eq]
+  have e1 : (95047 : ℝ) / 100000 / (95047 / 100000) = 1 := by norm_num
+  have e2 : (108883 : ℝ) / 100000 / (108883 / 100000) = 1 := by norm_num
+  rw [e1, e2, div_one, labFR_one]
+  norm_num
+
+/-- **C20 (every grey has a* = b* = 0 if the white point is consistent).** For the model's generic
+`xyz2labG` over the reals, *any* helper `f`, any 3×3 matrix and any white point with non-zero entries:
+if each matrix row sums to the corresponding white-point coordinate, a grey of linear level `s`
+(`matVec M [s,s,s]`) maps to `(116 f(s) − 16, 0, 0)`. -/
+theorem C20_lab_grey_zero_if_white_point_consistent (f : ℝ → ℝ)
+    (m11 m12 m13 m21 m22 m23 m31 m32 m33 xn yn zn s : ℝ)
+    (hx : m11 + m12 + m13 = xn) (hy : m21 + m22 + m23 = yn) (hz : m31 + m32 + m33 = zn)
+    (hxn : xn ≠ 0) (hyn : yn ≠ 0) (hzn : zn ≠ 0) :
+    xyz2labG f litsR [xn, yn, zn] (matVec [[m11, m12, m13], [m21, m22, m23], [m31, m32, m33]] [s, s, s]) =
+      [116 * f s - 16, 0, 0] :=
+  xyz2labG_grey f m11 m12 m13 m21 m22 m23 m31 m32 m33 xn yn zn s hx hy hz hxn hyn hzn
+
+/-- **C20 (greys with the code's actual constants: the mismatch, exactly).** The extracted 4-digit
+matrix has row sums `(0.9505, 1, 1.089)` while `xyz2lab` divides by the 5-digit white point
+`(0.95047, 1, 1.08883)`: `X/Xn = s·(1 + 3/95047)`, `Y/Yn = s`, `Z/Zn = s·(1 + 17/108883)` for a grey of
+linear level `s`. For every `0 ≤ s ≤ 1` (every grey: `s = T(v)`, `T(0) = 0`, `T(255) = 1`, `T` increasing)
+the model over the reals gives `L* = 116 f(s) − 16`, `0 ≤ a* ≤ 500/95047 < 0.00527` and
+`−0.01041 < −3400/326649 ≤ b* ≤ 0` (from `0 ≤ f(s(1+ε)) − f(s) ≤ ε/3`). These are the tolerances
+`|a*| ≤ 0.006`, `|b*| ≤ 0.011` of the check, now proved; the bound is attained up to `O(ε²)` at white. -/
+theorem C20_lab_grey_bound (s : ℝ) (hs0 : 0 ≤ s) (hs1 : s ≤ 1) :
+    (((9505 : ℝ) / 10000) / (95047 / 100000) = 1 + 3 / 95047 ∧
+     ((1089 : ℝ) / 1000) / (108883 / 100000) = 1 + 17 / 108883) ∧
+    (∃ a b : ℝ, xyz2labR (matVec (castM rgb2xyzMQ) [s, s, s]) = [116 * labFR s - 16, a, b] ∧
+      0 ≤ a ∧ a ≤ 500 / 95047 ∧ -(3400 / 326649) ≤ b ∧ b ≤ 0) ∧
+    ((500 : ℝ) / 95047 < 527 / 100000 ∧ (3400 : ℝ) / 326649 < 1041 / 100000) ∧
+    (∀ v : ℝ, 0 ≤ v → v ≤ 255 → 0 ≤ srgbR v ∧ srgbR v ≤ 1) := by
+  refine ⟨white_mismatch, lab_grey_bound hs0 hs1, ⟨by norm_num, by norm_num⟩, fun v h0 h1 => ⟨?_, ?_⟩⟩
+  · rw [← srgbR_zero]; exact srgbR_strictMono.monotone h0
+  · rw [← srgbR_255]; exact srgbR_strictMono.monotone h1
+
+/-- **C20 (rgb2lab of a grey pixel, end to end over the reals).** For every grey `(v, v, v)` with
+`0 ≤ v ≤ 255` (real, in particular every 8-bit value) the model's `rgb2lab = xyz2lab ∘ rgb2xyz` over the
+reals returns `L* = 116 f(T(v)) − 16`, `0 ≤ a* ≤ 500/95047` and `−3400/326649 ≤ b* ≤ 0`; at white
+`T(255) = 1`, `f(1) = 1`, so `L* = 100`. -/
+theorem C20_rgb2lab_grey (v : ℝ) (h0 : 0 ≤ v) (h1 : v ≤ 255) :
+    (∃ a b : ℝ, xyz2labR (rgb2xyzR [v, v, v]) = [116 * labFR (srgbR v) - 16, a, b] ∧
+      0 ≤ a ∧ a ≤ 500 / 95047 ∧ -(3400 / 326649) ≤ b ∧ b ≤ 0) ∧
+    116 * labFR (srgbR 255) - 16 = 100 := by
+  have hs0 : 0 ≤ srgbR v := by rw [← srgbR_zero]; exact srgbR_strictMono.monotone h0
+  have hs1 : srgbR v ≤ 1 := by rw [← srgbR_255]; exact srgbR_strictMono.monotone h1
+  refine ⟨lab_grey_bound hs0 hs1, ?_⟩
+  rw [srgbR_255, labFR_one]; norm_num
+
 /-! non-vacuity -/
 example : stretchList [(3 : Rat), 7, 5, 3] (-5) 100 = [-5, 100, 95 / 2, -5] := by
   norm_num [stretchList, minL, maxL, stretchCore, capHi]
 example : sepiaSpecQ 255 255 255 = [255, 255, 238] := by decide +kernel
 example : inverseDefect ≠ [] := by decide +kernel
+example : srgbR 0 = 0 ∧ srgbR 255 = 1 ∧ srgbR 10 < srgbR 11 :=
+  ⟨srgbR_zero, srgbR_255, srgbR_strictMono (by norm_num)⟩
+example : labFR 1 = 1 := labFR_one
+example : xyz2labG (fun t => t) litsR [1, 1, 1] (matVec [[1, 0, 0], [0, 1, 0], [0, 0, 1]] [(2 : ℝ), 2, 2]) =
+    [116 * 2 - 16, 0, 0] :=
+  xyz2labG_grey _ 1 0 0 0 1 0 0 0 1 1 1 1 2 (by norm_num) (by norm_num) (by norm_num) one_ne_zero one_ne_zero
+    one_ne_zero
